@@ -85,6 +85,6 @@ pub fn run(ctx: &mut Ctx) {
     }
     ctx.mark_exhaustive("every-char-length-and-fill", "every supported type x every payload length in characters 1..=max+4 x fill 0..=5, random contents, through the sentence path");
 
-    let n = ctx.tier.pick(30_000, 1_000_000);
+    let n = ctx.tier.pick(160_000, 1_000_000);
     ctx.run_proptest("random-any-length", &STD, n, payload_inputs(SUPPORTED.to_vec(), LenMode::Any, Prop::C14, 5, 0.2), check);
 }
